@@ -135,7 +135,14 @@ class ForkRNG:
             return outs[_C().choose([_pv(q) for _, q in outs])][0]
         size = int(size)
         if replace is not False:
-            raise EncodingGap("choice with replacement")
+            # numpy's default: independent uniform draws, i.e. every ordered tuple with repetition equally likely
+            if size == 0:
+                return _np.array([], dtype=int)
+            if len(a) == 0:
+                raise ValueError("a cannot be empty unless no samples are taken")
+            tups = list(itertools.product(a, repeat=size))
+            c = _C().choose([_pv(Fraction(1, len(tups)))] * len(tups))
+            return _np.array(tups[c])
         if size > len(a):
             raise ValueError("Cannot take a larger sample than population when replace is False")
         if size == 0:
